@@ -134,10 +134,10 @@ def sidd_pixels(rng, rows, cols, pixel_type):
     raise ValueError(pixel_type)
 
 
-def write_sidd(metas, datas, target, tmpdir, row_limit=None, sicd_meta=None, name='sidd.nitf', chunk_plans=None, order=None):
+def write_sidd(metas, datas, target, tmpdir, row_limit=None, sicd_meta=None, name='sidd.nitf', chunk_plans=None, order=None, additional_des=None):
     from sarpy.io.product.sidd import SIDDWriter, SIDDWritingDetails
     logging.disable(logging.CRITICAL)
-    det = SIDDWritingDetails([m.copy() for m in metas], sicd_meta, row_limit=row_limit)
+    det = SIDDWritingDetails([m.copy() for m in metas], sicd_meta, row_limit=row_limit, additional_des=additional_des)
     path = os.path.join(tmpdir, name)
     if os.path.exists(path):
         os.remove(path)
